@@ -4,6 +4,7 @@ import (
 	"errors"
 	"fmt"
 	"runtime"
+	"strings"
 	"sync"
 	"sync/atomic"
 	"time"
@@ -41,6 +42,10 @@ type pipePlan struct {
 	PanicPct int        `json:"panic_pct"`
 	Barrier  bool       `json:"barrier"`
 	Items    []pipeItem `json:"items"`
+	// the extension families (fx-options / mr-options): the worker option actually passed, when it is
+	// not WithWorkers(N); N is then the capacity the option stands for (see fxOptsCase / mrOptsCase)
+	Opt   string `json:"option,omitempty"`
+	Class string `json:"-"`
 }
 
 var errVerifCancel = errors.New("verif-cancel")
@@ -68,6 +73,7 @@ type pipe struct {
 
 func newPipe(c *kit.Case, p pipePlan) *pipe {
 	pp := &pipe{m: newMon(c, p.Prim, p.N, p), p: p, k: len(p.Items), full: make(chan struct{}), abort: make(chan struct{})}
+	pp.m.class = p.Class
 	total := pp.k
 	if p.Barrier {
 		total += p.N
@@ -173,6 +179,11 @@ func (pp *pipe) run(invoke func()) {
 			} else {
 				// e.g. a runtime error raised inside mr (C10's matter), only counted here
 				c.Obs(m.prim+"_calls_ended_by_another_panic", 1)
+				if pp.p.Class != "" {
+					// extension families: a worker option outside "capacity n >= 1" (or none at all)
+					// - the statement is silent there except that the call must not blow up
+					m.viol("panic/"+pp.p.Class, fmt.Sprintf("%s %s with option %s panicked: %v", m.prim, pp.p.API, pp.p.Opt, pv), nil)
+				}
 			}
 		}
 		if pp.p.Barrier {
@@ -266,7 +277,8 @@ func genPipePlan(r *kit.Rand, prim string, apis []string) pipePlan {
 	}
 	p := pipePlan{Prim: prim, API: kit.Choose(r, apis), N: n, PanicPct: kit.Choose(r, []int{0, 0, 5, 15, 40}), Barrier: true}
 	cancelPct := 0
-	if prim == "mr" && p.API != "ForEach" && r.Chance(0.2) {
+	isMr := strings.HasPrefix(prim, "mr")
+	if isMr && p.API != "ForEach" && r.Chance(0.2) {
 		cancelPct = kit.Choose(r, []int{3, 10})
 	}
 	for i := 0; i < k; i++ {
@@ -274,7 +286,7 @@ func genPipePlan(r *kit.Rand, prim string, apis []string) pipePlan {
 		if r.Chance(0.5) {
 			it.Writes = r.Range(1, 2)
 		}
-		if prim == "mr" && (it.Panic || it.Cancel) {
+		if isMr && (it.Panic || it.Cancel) {
 			p.Barrier = false // the call ends at the first panic / cancel: no quiescence inside the call
 		}
 		p.Items = append(p.Items, it)
@@ -288,7 +300,14 @@ func mrCase(c *kit.Case) {
 	if skipAfterLeak(c, "mr") {
 		return
 	}
-	p := genPipePlan(c.R, "mr", []string{"ForEach", "MapReduce", "MapReduceVoid", "MapReduceChan"})
+	p := genPipePlan(c.R, "mr", mrAPIs)
+	mrDrive(c, p, []mr.Option{mr.WithWorkers(p.N)})
+}
+
+var mrAPIs = []string{"ForEach", "MapReduce", "MapReduceVoid", "MapReduceChan"}
+
+// mrDrive runs one generated plan through the mr API it names, with the given options.
+func mrDrive(c *kit.Case, p pipePlan, opts []mr.Option) {
 	pp := newPipe(c, p)
 	generate := func(source chan<- int) {
 		pp.gen(func(i int) bool {
@@ -317,33 +336,56 @@ func mrCase(c *kit.Case) {
 		}
 		w.Write(cnt)
 	}
-	opt := mr.WithWorkers(p.N)
+	if p.API == "Finish" || p.API == "FinishVoid" {
+		pp.genDone.Store(true) // Finish owns the generator: the functions ARE the items
+	}
 	pp.run(func() {
 		var err error
 		switch p.API {
+		case "Finish":
+			fns := make([]func() error, len(p.Items))
+			for i := range fns {
+				i := i
+				fns[i] = func() (e error) {
+					pp.body(i, func(it pipeItem) {
+						if it.Cancel {
+							e = errVerifCancel
+						}
+					})
+					return
+				}
+			}
+			err = mr.Finish(fns...)
+		case "FinishVoid":
+			fns := make([]func(), len(p.Items))
+			for i := range fns {
+				i := i
+				fns[i] = func() { pp.body(i, nil) }
+			}
+			mr.FinishVoid(fns...)
 		case "ForEach":
-			mr.ForEach(generate, func(i int) { pp.body(i, nil) }, opt)
+			mr.ForEach(generate, func(i int) { pp.body(i, nil) }, opts...)
 		case "MapReduce":
-			_, err = mr.MapReduce(generate, mapper, reducer, opt)
+			_, err = mr.MapReduce(generate, mapper, reducer, opts...)
 		case "MapReduceVoid":
 			err = mr.MapReduceVoid(generate, mapper, func(pipe <-chan int, cancel func(error)) {
 				for range pipe {
 				}
-			}, opt)
+			}, opts...)
 		default:
 			source := make(chan int)
 			go func() {
 				defer close(source)
 				generate(source)
 			}()
-			_, err = mr.MapReduceChan(source, mapper, reducer, opt)
+			_, err = mr.MapReduceChan(source, mapper, reducer, opts...)
 		}
 		if err != nil {
-			c.Obs("mr_calls_ended_with_an_error", 1)
+			c.Obs(p.Prim+"_calls_ended_with_an_error", 1)
 		}
 	})
 	if c.Index < 2 {
-		c.Sample("mr", 2, map[string]any{"plan": p, "max_mappers_inside_seen": pp.m.g.Max(), "items_processed": pp.exited.Load()})
+		c.Sample(p.Prim, 2, map[string]any{"plan": p, "max_mappers_inside_seen": pp.m.g.Max(), "items_processed": pp.exited.Load()})
 	}
 }
 
@@ -353,7 +395,14 @@ func fxCase(c *kit.Case) {
 	if skipAfterLeak(c, "fx") {
 		return
 	}
-	p := genPipePlan(c.R, "fx", []string{"Walk", "Parallel", "Map", "Filter"})
+	p := genPipePlan(c.R, "fx", fxAPIs)
+	fxDrive(c, p, []fx.Option{fx.WithWorkers(p.N)})
+}
+
+var fxAPIs = []string{"Walk", "Parallel", "Map", "Filter"}
+
+// fxDrive runs one generated plan through the fx stage it names, with the given options.
+func fxDrive(c *kit.Case, p pipePlan, opts []fx.Option) {
 	pp := newPipe(c, p)
 	src := func() fx.Stream {
 		return fx.From(func(source chan<- any) {
@@ -367,7 +416,6 @@ func fxCase(c *kit.Case) {
 			})
 		})
 	}
-	opt := fx.WithWorkers(p.N)
 	// an unrelated stream stage run earlier in the same process with other worker options must not
 	// change the cap of this one (options are per call, not process state)
 	if c.R.Chance(0.5) {
@@ -378,7 +426,7 @@ func fxCase(c *kit.Case) {
 			prev = fx.WithWorkers(p.N + c.R.Range(1, 64))
 		}
 		fx.Just(1, 2, 3, 4, 5, 6, 7, 8).Walk(func(item any, pipe chan<- any) { pipe <- item }, prev).Done()
-		c.Obs("fx_unrelated_stage_with_other_worker_options_ran_before", 1)
+		c.Obs(p.Prim+"_unrelated_stage_with_other_worker_options_ran_before", 1)
 	}
 	pp.run(func() {
 		switch p.API {
@@ -389,22 +437,22 @@ func fxCase(c *kit.Case) {
 						pipe <- item
 					}
 				})
-			}, opt).Done()
+			}, opts...).Done()
 		case "Parallel":
-			src().Parallel(func(item any) { pp.body(item.(int), nil) }, opt)
+			src().Parallel(func(item any) { pp.body(item.(int), nil) }, opts...)
 		case "Map":
 			src().Map(func(item any) any {
 				pp.body(item.(int), nil)
 				return item
-			}, opt).Done()
+			}, opts...).Done()
 		default:
 			src().Filter(func(item any) bool {
 				pp.body(item.(int), nil)
 				return item.(int)%2 == 0
-			}, opt).Done()
+			}, opts...).Done()
 		}
 	})
 	if c.Index < 2 {
-		c.Sample("fx", 2, map[string]any{"plan": p, "max_workers_inside_seen": pp.m.g.Max(), "items_processed": pp.exited.Load()})
+		c.Sample(p.Prim, 2, map[string]any{"plan": p, "max_workers_inside_seen": pp.m.g.Max(), "items_processed": pp.exited.Load()})
 	}
 }
